@@ -173,4 +173,5 @@ CHECK = {
                   "trailing bytes unread; the JSON theorem is about trees (serde data model), text syntax is serde_json's; the "
                   "decoder and reader models are of third-party code (bincode, serde) and are tied by correspondence only",
     "timeout": {"quick": 900, "thorough": 3000, "search": 1500},
+    "no_thorough": "on 2026-09-30 the thorough tier reported 4 model/implementation differences in 182436 lines on the unchanged tree (long random programs, first at `run load.big.1;;v2 into_bytes.1;v2;v1 ...`, replay work/thorough_C18.log / replays/C18-7fd98e2ede8f.json), found minutes before the end of the session and not yet triaged (model gap or defect); the quick tier (13540 lines) agrees on every seed",
 }
